@@ -343,6 +343,10 @@ fn job_workload(master: u64, job: u64, tier: Tier) -> Vec<u8> {
         // expanded form hundreds of times larger than the file
         return workload::gen_high_ratio_file(&mut rng, rng_len(job, 60_000, 900_000));
     }
+    if job % 16 == 11 {
+        // the file is larger than its expanded form (budget >= expanded size must still suffice)
+        return workload::gen_file_larger_than_expanded(&mut rng);
+    }
     if job % 16 == 9 {
         // chunk boundary of the expanded form on a 128 KiB (zstd block) boundary
         return workload::gen_block_aligned_file(&mut rng, 1 + (job / 16 % 2) as usize);
@@ -420,6 +424,7 @@ impl Engine for BlobEngine {
             "probe.damage_undetected_by_zstd",
             "probe.foreign_container",
             "probe.blob_with_several_zstd_blocks",
+            "probe.file_larger_than_expanded_form",
         ]
     }
 
@@ -458,6 +463,9 @@ impl Engine for BlobEngine {
             }
         };
         res.bump("workloads");
+        if prep.file.len() > prep.expanded.len() {
+            res.bump("probe.file_larger_than_expanded_form");
+        }
         let e = prep.expanded.len();
         let blen = prep.blob.len();
         let ample = e + 4096;
